@@ -5,7 +5,7 @@
 set -eu
 ID=$1
 H=/tmp/hv/$ID
-rm -rf $H; mkdir -p $H
+git -C /repo worktree remove --force $H/repo 2>/dev/null || true; rm -rf $H; git -C /repo worktree prune; mkdir -p $H
 rsync -a --exclude .git --exclude bin --exclude evidence /verif/ $H/verif/
 git -C /repo worktree add -q --detach $H/repo HEAD
 : > $H/STATUS.txt
